@@ -1,8 +1,60 @@
 import Driver.Proto
-/-! driver handlers for property C14 (ops `model.*`, `spec.*`, `trig.*`) -/
+import Verif.Model.IoFail
+import Verif.Gen.ExitPaths
+/-! driver handlers for property C14 (ops `model.c14.*`) -/
 namespace Verif.Driver.C14
-open Verif Verif.Driver
+open Verif Verif.Driver Verif.Skel Verif.Model.IoFail
 
-def handlers : List (String × Handler) := []
+def findPkg (name : List Char) : Except String ExitPkg :=
+  match Verif.Gen.ExitPaths.all.find? (fun p => p.name.toList == name) with
+  | some p => .ok p
+  | none => .error s!"unknown package {String.ofList name}"
+
+def errName : Err → String
+  | .writer => "writer" | .reader => "reader" | .syntax => "syntax" | .eof => "eof" | .sub => "sub"
+
+def outName : Out → String
+  | .ret none => "ok"
+  | .ret (some e) => "err:" ++ errName e
+  | .fall => "fall"
+
+/-- `model.c14.predict pkg n k readerFails` → `ok` | `err:writer` | `err:reader` | …:
+    verdict of the regenerated skeleton's main block for a call that makes `n` body writes against
+    a writer failing from its `k`-th call on -/
+def predictH : Handler := fun args => do
+  let name ← argChars args 0
+  let n ← argNat args 1
+  let k ← argNat args 2
+  let rf ← argBool args 3
+  let p ← findPkg name
+  .ok (strBytes (outName (predict p n k rf)))
+
+/-- `model.c14.simple n k` → verdict of the simple run (n body writes of one byte each, then probe) and
+    the number of chunks accepted by the medium -/
+def simpleH : Handler := fun args => do
+  let n ← argNat args 0
+  let k ← argNat args 1
+  let r := simpleRun (List.replicate n [0]) k
+  .ok (listReply [strBytes (outName (.ret r.1)), natBytes r.2.length])
+
+/-- `model.c14.wf pkg` → is the regenerated skeleton well-formed -/
+def wfH : Handler := fun args => do
+  let name ← argChars args 0
+  let p ← findPkg name
+  .ok (boolBytes (wfExit p))
+
+/-- `model.c14.readall data k chunk short` → bytes that `io.ReadAll` returns over the failing reader
+    (the error is always the reader's, theorem `readAll_failReads`) -/
+def readAllH : Handler := fun args => do
+  let d ← argBytes args 0
+  let k ← argNat args 1
+  let c ← argNat args 2
+  let s ← argBool args 3
+  let r := readAll (failReads d k c s)
+  .ok (listReply [r.1, strBytes (match r.2 with | some e => errName e | none => "nil")])
+
+def handlers : List (String × Handler) :=
+  [("model.c14.predict", predictH), ("model.c14.simple", simpleH), ("model.c14.wf", wfH),
+   ("model.c14.readall", readAllH)]
 
 end Verif.Driver.C14
